@@ -203,6 +203,10 @@ def _r3_subpyramid(run, ev):
         run.holds("C13.R3", f, plain[0][2], "no sub-pyramid: positions of generate_pos(self.depth) unchanged")
     elif general and not plain:
         run.holds("C13.R3", f, subs[0][2], "no separate branch for the whole pyramid: the general offset map is used with apex (0, 0, 0), where it is the identity")
+    elif _delegating_yield_from(project, f) and not plain:
+        x_, g_ = _delegating_yield_from(project, f)[0]
+        run.undecided("C13.R3", f, x_, "the generator delegates to %s with `yield from`: the enumeration is not followed there" % g_.short, kind="generator-delegated")
+        return False
     else:
         run.violated("C13.R3", f, None, "without a sub-pyramid the generic generator does not yield generate_pos(self.depth) as is", kind="plain-generator")
     if len(subs) != 1:
@@ -427,3 +431,17 @@ def _rebase(spec, project, ev0, fx):
             return tuple(sub(x) if isinstance(x, tuple) else x for x in t)
         return t
     return sub(spec)
+
+
+def _delegating_yield_from(project, f):
+    """`yield from self.<method>(..)` in *f* where <method> is a generator method of the same class that the evaluation did
+    not splice in: the enumeration lives there."""
+    import ast as _ast
+    out = []
+    for x in _ast.walk(f.node):
+        if isinstance(x, _ast.YieldFrom) and isinstance(x.value, _ast.Call) and isinstance(x.value.func, _ast.Attribute) \
+                and isinstance(x.value.func.value, _ast.Name) and x.value.func.value.id == "self":
+            g = project.funcs.get("%s.%s.%s" % (f.module.name, f.cls.name, x.value.func.attr)) if f.cls is not None else None
+            if g is not None:
+                out.append((x, g))
+    return out
